@@ -128,6 +128,11 @@ META.update({
 "C12b":dict(breaks="C12: the same exact test replaced by an ABSOLUTE tolerance |x2 - x1| <= eps: harmless for O(1) tensors, but every pair of a tensor of magnitude <= 1e-16 counts as repeated",
   needs="a derivative of sqrt/log/pow_symm at scale 1e-16 and below with eigenvalues distinct in relative terms (ratio 1:2:4): 5-15 percent error; function values, exp_symm and ordinary scales unaffected"),
 })
+
+META.update({
+"C03c":dict(breaks="C03: the face-2 node list of the BUBBLE parent element (Interpolants.make_parent_element_2d_with_bubble) computed with the plain element's formula flip(jj) - ii: right for degree 1-2, wrong node lists (including vertex 1) for degree >= 3 because interior base nodes were removed and the rest renumbered",
+  needs="useBubbleElement=True AND element order >= 3: mid-edge node placement, edge integration and node sets from side sets all use faceNodes; parent-element shape functions (all of test_Interpolants) untouched"),
+})
 for pid in sys.argv[1:]:
     p='/verif/seeded/%s/meta.json'%pid
     if not os.path.exists(p): print('no meta for',pid); continue
